@@ -243,8 +243,13 @@ def part_norm_radial(ctx, drv, items):
         # ---- radial term: scalar and array calls vs model
         conds = [spec_cond(n, m, r) for r in RADII]
         mod = Toks(outs[4 * i + 1]).floats(len(RADII))
-        sc = [float(z._radial_term(n, m, r)) for r in RADII]
-        ar = np.asarray(z._radial_term(n, m, rarr), dtype=float)
+        try:
+            sc = [float(z._radial_term(n, m, r)) for r in RADII]
+            ar = np.asarray(z._radial_term(n, m, rarr), dtype=float)
+        except Exception as e:  # noqa
+            ctx.fail('radial term R_n^|m|(r) is defined for every term of the family (first 120 indices)', case,
+                     type(e).__name__ + ': ' + str(e), 'a value')
+            continue
         for j, r in enumerate(RADII):
             atol = 1e-13 * conds[j] + 1e-300
             ctx.cmp('_radial_term(r=%d/32) scalar' % j, sc[j], mod[j], case, atol=atol)
@@ -297,7 +302,12 @@ def part_terms(ctx, drv, items):
         case = {'kind': 'get_term', 'family': fam, 'k': k, 'n': n, 'm': m, 'coeff': c}
         ctx.case(case)
         z = zclass(fam)()
-        impl = np.asarray(z.get_term(c, n, m, R, P), dtype=float)
+        try:
+            impl = np.asarray(z.get_term(c, n, m, R, P), dtype=float)
+        except Exception as e:  # noqa
+            ctx.fail('get_term is defined for every term of the family (first 120 indices)', case,
+                     type(e).__name__ + ': ' + str(e), 'values')
+            continue
         mod = Toks(out).floats(len(R))
         key = (n, abs(m))
         if key not in cond_cache:
